@@ -262,6 +262,23 @@ def _elim_returns(stmts, ret):
       out.append(ast.copy_location(ast.Try(
           body=st.body, handlers=hs, orelse=ob, finalbody=[]), st))
       return out, handlers_t and ot
+    if isinstance(st, ast.Try) and rest and not st.finalbody and \
+        not st.orelse and st.handlers:
+      # the protected body always returns: what follows the try runs only
+      # after a handler, so it moves to the end of every handler (it is not
+      # protected by the handlers there either)
+      body, bt = _elim_returns(st.body, ret)
+      if bt:
+        hs = []
+        allt = True
+        for h in st.handlers:
+          hb, ht = _elim_returns(list(h.body) + _fast_copy(rest), ret)
+          allt = allt and ht
+          hs.append(ast.copy_location(ast.ExceptHandler(
+              type=h.type, name=h.name, body=hb or [ast.Pass()]), h))
+        out.append(ast.copy_location(ast.Try(
+            body=body, handlers=hs, orelse=[], finalbody=[]), st))
+        return out, allt
     if isinstance(st, (ast.For, ast.While)) and not st.orelse and not any(
         isinstance(x, ast.Break) for x in _walk_same_loop(st.body)):
       # `for ...: if c: return X` + rest  ->  `for ...: if c: ret = X; break`
